@@ -460,12 +460,19 @@ func (s *Summaries) Mut(fn *ssa.Function, idx int) *MutSummary {
 			if ia, ok := x.Addr.(*ssa.IndexAddr); ok {
 				if f := fieldLoadedFrom(ia.X, base); f != nil {
 					m.Elems[f] = tm.Of(x.Val)
+				} else if f := fieldHolding(fn, ia.X, base); f != nil {
+					// a local slice that is filled first and stored into the field afterwards
+					m.Elems[f] = tm.Of(x.Val)
 				}
 			}
 		case ssa.CallInstruction:
 			c := x.Common()
 			if bi, ok := c.Value.(*ssa.Builtin); ok && bi.Name() == "copy" && len(c.Args) == 2 {
-				if f := fieldLoadedFrom(c.Args[0], base); f != nil {
+				f := fieldLoadedFrom(c.Args[0], base)
+				if f == nil {
+					f = fieldHolding(fn, c.Args[0], base)
+				}
+				if f != nil {
 					m.Elems[f] = &Term{Op: "elem", Args: []*Term{tm.Of(c.Args[1]), {Op: "unknown"}}}
 				}
 				return
